@@ -507,7 +507,35 @@ def drive_object(ctx, eqsig, rng, cont, dt, per, xi):
     if per[0] == 0 and len(per) < 2:
         per = np.concatenate([per, [dt * 7.3]])
     ratio = int(rng.choice([1, 2, 4, 8]))
-    mode = int(rng.integers(5))
+    mode = int(rng.integers(6))
+    if mode == 5:
+        # history: spectra generated or read, the record changed through the public API, then LAZY reads only (no explicit
+        # regeneration, which would hide a spectrum that was not invalidated): judged against the object's current values
+        sig = eqsig.AccSignal(cont, dt, response_times=_form(rng, per))
+        if rng.random() < 0.5:
+            sig.gen_response_spectrum(xi=xi, min_dt_ratio=ratio)
+        else:
+            sig.s_a
+        n = sig.npts
+        k = int(rng.integers(6))
+        amp = float(np.max(np.abs(np.asarray(sig.values, dtype=float)))) or 1.0
+        if k == 0:
+            sig.reset_values(np.asarray(sig.values, dtype=float)[::-1] * 0.5)
+        elif k == 1:
+            sig.add_constant(0.3 * amp)
+        elif k == 2:
+            sig.add_series(amp * rng.normal(size=n))
+        elif k == 3:
+            sig.remove_average()
+        elif k == 4:
+            sig.reset_values(list(amp * rng.normal(size=n + 3)))
+        else:
+            sig.remove_poly(1)
+        for nm in rng.permutation(['s_d', 's_v', 's_a']):
+            getattr(sig, str(nm))
+        _periods_kept(ctx, sig, per, 'ctor-kw')
+        ctx.keyset('object lazy-read-after-mutator').add(k)
+        return
     if mode == 4:
         # sweep: one object, every min_dt_ratio 1..8 in random order, first period short enough that the step rule really
         # selects that factor, and (half of the time) a step for which dt/(dt/k) != k in floating point
